@@ -199,7 +199,7 @@ func run(c *core.Case) {
 			InfoMetrics:   []string{"target_info"},
 			LabelNames:    []string{"job", "instance", "a", "le", "env", "__name__"},
 			LabelValues:   []string{"x", "y", "1", "prod", "with space", "q\"uote", "日本", "new\nline", "back\\slash", "a'b", "`"},
-			AtTimes:       []int64{0, 1000, 1700000000123, -5000, 1, 1234567},
+			AtTimes:       []int64{0, 1000, 1700000000123, -5000, 1, 1234567, -1500, -250, -1, -999, -1001, -86400123, 999, -9223372036854775000},
 			Allow:         pqgen.Features{Experimental: true, DurationExpr: true, Extended: true, Fill: true},
 			At:            true, AtStartEnd: true, RangeRefs: true, TimeFuncs: true, NegOffset: true,
 			Surface: true, Hostile: true, AnyTopType: true,
